@@ -210,7 +210,7 @@ CHECKS = {
         "temporary file + atomic replace, metadata last): for every crash point and every prefix of every write, a fresh read yields miss, the old or the new "
         "entry, and other keys are unaffected (16 theorems). Correspondence: every file-system operation boundary of the real operations is crashed in a "
         "subprocess (os._exit) and a fresh process reads; exhaustive in both tiers. Partial: torn sectors, fsync/write-back ordering and directory-entry "
-        "durability are below the model. A further scenario crashes twice in a row (a remove that died after its first file operation, then a store crashed at every point): oracle on the implementation, theorem c16_storecache_on_filestore_two_crashes on the model (the crash theorems hold from any tree, so crashes compose)."),
+        "durability are below the model. A further scenario crashes twice in a row (a remove that died after its first file operation, then a store crashed at every point): oracle on the implementation, theorems c16_filecache_two_crashes and c16_storecache_on_filestore_two_crashes on the model (the crash theorems hold from any tree, so crashes compose)."),
   note=("Trusted: Lean kernel; LiquerModel/CrashSteps.lean step lists (tied by the crash replay); POSIX rename atomicity; the OS applies completed operations in order."),
  ),
 }
